@@ -44,6 +44,7 @@ type HTTPReverseProxyOptions struct {
 
 type HTTPReverseProxy struct {
 	proxy       http.Handler
+	h2cHandler  http.Handler
 	vhostRouter *Routers
 
 	responseHeaderTimeout time.Duration
@@ -140,7 +141,10 @@ func NewHTTPReverseProxy(option HTTPReverseProxyOptions, vhostRouter *Routers) *
 			_, _ = rw.Write(getNotFoundPageContent())
 		},
 	}
-	rp.proxy = h2c.NewHandler(proxy, &http2.Server{})
+	rp.proxy = proxy
+	// h2c wraps the whole handler, not just the forwarding part: every request of an HTTP/2 connection (prior
+	// knowledge or upgraded) has to pass the credential check and get its own route.
+	rp.h2cHandler = h2c.NewHandler(http.HandlerFunc(rp.serveHTTP), &http2.Server{})
 	return rp
 }
 
@@ -319,6 +323,10 @@ func (rp *HTTPReverseProxy) injectRequestInfoToCtx(req *http.Request) *http.Requ
 }
 
 func (rp *HTTPReverseProxy) ServeHTTP(rw http.ResponseWriter, req *http.Request) {
+	rp.h2cHandler.ServeHTTP(rw, req)
+}
+
+func (rp *HTTPReverseProxy) serveHTTP(rw http.ResponseWriter, req *http.Request) {
 	domain, _ := httppkg.CanonicalHost(req.Host)
 	location := req.URL.Path
 	// The credentials must be checked against the route the request will be forwarded to,
